@@ -127,15 +127,16 @@ CHECKS = {
                mc(2, [2, 6], DEL, ['add_edge', 'add_cell_closed', 'add_face_v'], Modes='ModesTwo', BUSets='BUTwo', MaxList=3)],
         thorough=[mc(2, [1, 6], DEL, ['add_edge', 'add_face'], Modes='ModesTwo', BUSets='BUTwo', MaxList=3),
                   mc(2, [1, 5, 2], ['delete_cell'], ['add_cell'], Modes='ModesDefault', BUSets='BUTwo', MaxList=4),
-                  mc(3, [2, 4, 6], DEL + GC, ['add_edge', 'add_cell_closed', 'add_face_v'], MaxList=3)],
+                  mc(3, [2, 6], DEL + GC, ['add_edge', 'add_cell_closed', 'add_face_v'], Modes='ModesTwo', BUSets='BUTwo', MaxList=3)],
         sim=None,
     ),
     'C12': dict(
         props=['C12', 'C01', 'C09'], opts='props=1 twin=1 q=1', variant='san',
         quick=[mc(2, [2, 5, 6], DEL + BUT, DEL + GC + BUT + ['add_edge', 'add_face_v', 'add_cell_closed', 'enable_deferred'], Modes='ModesTwo'),
                mc(1, MAINSEEDS, [], SWAP, Modes='ModesDefault')],
-        thorough=[mc(3, [2, 5, 6], DEL + GC + BUT, DEL + BUT + GC + ['add_edge', 'add_face_v', 'add_cell_closed', 'enable_deferred']),
-                  mc(2, SMALL + EXTRA, DEL + BUT, SWAP, Modes='ModesTwo')],
+        thorough=[mc(3, [5, 6], DEL + GC + BUT, DEL + BUT + GC + ['add_edge', 'add_face_v', 'add_cell_closed', 'enable_deferred']),
+                  mc(3, [2], DEL + BUT, DEL + BUT + GC, Modes='ModesTwo'),
+                  mc(2, [2, 5, 6, 11, 12], DEL + BUT, SWAP, Modes='ModesTwo')],
         sim=dict(ops=DEL + GC + ADDS + BUT + BUT + SWAP + MODE),
     ),
     'C17': dict(
